@@ -179,7 +179,7 @@ def jsrun_request(draw, plat):
     smt = plat.get('smt', 1)
     cpr = min(cpn, draw(st.sampled_from([1, 1, 2, 2, 4])) * draw(st.sampled_from([1, smt])))
     cap = max(1, cpn // cpr)
-    gpr_num, gpr_den = draw(st.sampled_from([(0, 1), (0, 1), (1, 1), (1, 1), (2, 1), (1, 2), (1, 4)]))
+    gpr_num, gpr_den = draw(st.sampled_from([(0, 1), (0, 1), (1, 1), (1, 1), (2, 1), (2, 1), (3, 1), (1, 2), (1, 4)]))
     if not gpn or gpr_num > gpn:
         gpr_num, gpr_den = 0, 1
     ranks = draw(st.sampled_from([1, 1, 2, 3, 4, 6, 8, 12, 16, 24, 43, 48, 64]))
@@ -248,7 +248,7 @@ def cases(draw, lms=None):
                                                   '22.05.8', '23.02.1']))}
 
     lm_cfg = {}
-    if fam == 'IBRUN' and draw(st.booleans()):
+    if fam == 'IBRUN' and draw(st.integers(0, 2)) == 0:
         lm_cfg = {'options': {'tasks_per_node': draw(st.sampled_from([1, 4, plat['cpn']]))}}
     if fam == 'PRTE':
         lm_cfg = {'dvm_count': draw(st.integers(1, min(3, nodes)))}
@@ -262,6 +262,10 @@ def cases(draw, lms=None):
         order = pre + [lm]
 
     n_tasks = draw(st.integers(1, 5))
+    if fam == 'IBRUN':
+        # commands depend on the task at hand only: several tasks of different sizes per launcher
+        n_tasks = draw(st.integers(3, 6))
+        plat['nodes'] = max(plat['nodes'], 3) if not big else plat['nodes']
     tasks = []
     for _ in range(n_tasks):
         if fam == 'JSRUN':
@@ -284,7 +288,7 @@ GROUPS = [   # (part name, launch methods, quick cases, thorough cases per shard
     ('mpirun',  ['MPIRUN', 'MPIRUN_MPT', 'MPIRUN_MPT', 'MPIRUN_RSH', 'MPIRUN_CCMRUN', 'MPIRUN_DPLACE'], 330, 1800),
     ('mpiexec', ['MPIEXEC', 'MPIEXEC', 'MPIEXEC_MPT'],                                   360, 2000),
     ('srun',    ['SRUN'],                                                               170,  900),
-    ('batch_placed', ['APRUN', 'CCMRUN', 'IBRUN', 'IBRUN'],                             170,  800),
+    ('batch_placed', ['APRUN', 'CCMRUN', 'IBRUN', 'IBRUN'],                             220,  900),
     ('jsrun',   ['JSRUN', 'JSRUN_ERF'],                                                 220, 1100),
     ('prte',    ['PRTE'],                                                               130,  600),
 ]
